@@ -47,6 +47,10 @@ class C19(Property):
             if i % 4 == 3:
                 # the NullTranscoder is registered for the container of the records: every untranscoded child may be discarded
                 case['null_on_container'] = True
+            elif i % 4 == 1:
+                # two NullTranscoders whose selectors are prefixes of each other (/root/records/note and .../notes): the
+                # elements without a record transcoder are <notes> here, and both kinds may be discarded
+                case['two_null'] = True
             yield case
         sizes = [30, 60, 120, 400, 1500] if tier == 'quick' else [30, 100, 1000, 5000, 30000]
         reps = 3 if tier == 'quick' else 4
@@ -93,7 +97,8 @@ class C19(Property):
             parts.append({'R': '<item id="s%d"/>' % i, 'N': '<note>sn%d</note>' % i, 'K': '<other>sk%d</other>' % i}[k])
         parts.append('</summary><records>')
         for i, k in enumerate(case['kinds']):
-            parts.append({'R': '<item id="r%d"/>' % i, 'N': '<note>n%d</note>' % i, 'K': '<other>k%d</other>' % i}[k])
+            parts.append({'R': '<item id="r%d"/>' % i, 'N': '<note>n%d</note>' % i,
+                          'K': ('<notes>k%d</notes>' if case.get('two_null') else '<other>k%d</other>') % i}[k])
         parts.append('</records></root>')
         out = io.BytesIO()
         err = None
@@ -102,6 +107,8 @@ class C19(Property):
                 m.register('/root/summary/item', S())
                 m.register('/root/records/item', T())
                 m.register('/root/records' if case.get('null_on_container') else '/root/records/note', NullTranscoder())
+                if case.get('two_null'):
+                    m.register('/root/records/notes', NullTranscoder())
                 m.add_event_source('/d/')
                 m.set_event_source('/d/')
                 m.parse(io.BytesIO(''.join(parts).encode()))
@@ -150,7 +157,7 @@ class C19(Property):
 
     def requests(self, case):
         if case.get('kind') == 'xmed':
-            kinds = case['kinds'].replace('K', 'N') if case.get('null_on_container') else case['kinds']
+            kinds = case['kinds'].replace('K', 'N') if (case.get('null_on_container') or case.get('two_null')) else case['kinds']
             return [{'op': 'xmed', 'kinds': list(kinds), 'cross': 'R' in case['pre']}]
         return [{'op': 'parse', 'reg': P.make_registry(REGS, False, True),
                  'chunks': [P.model_items(self.items_of(case))], 'rootEnd': True, 'versionOk': True}]
@@ -166,7 +173,7 @@ class C19(Property):
         if case.get('kind') == 'xmed':
             if obs['err'] is not None:
                 return 'XML transcoder mediator failed: %s' % obs['err']
-            kinds = case['kinds'].replace('K', 'N') if case.get('null_on_container') else case['kinds']
+            kinds = case['kinds'].replace('K', 'N') if (case.get('null_on_container') or case.get('two_null')) else case['kinds']
             lead = kinds.index('R') if 'R' in kinds else len(kinds)
             recs = [i for i, k in enumerate(kinds) if k == 'R']
             if len(obs['log']) != len(recs):
